@@ -225,6 +225,19 @@ def run(ctx):
     G.publication(ctx, "R6", B, "install.finalize_data", {"self:final_path"}, "the binary package")
     ctx.floor("R6", 3)
 
+    # ---- R7 which finalisation order is used depends on whether old and new entry are the same directory ------------------
+    rf = P.func("pkgcore.vdb.repo_ops", "replace.finalize_data")
+    tests = [n for n in A.body_walk(rf.node) if isinstance(n, ast.If)]
+    ctx.check("R7", rf, bool(tests), "order-decision-present", "replace.finalize_data chooses between publish-then-remove and the same-directory swap")
+    if tests:
+        t0 = tests[0].test
+        attrs = {n.attr for n in ast.walk(t0) if isinstance(n, ast.Attribute)}
+        ctx.check("R7", rf, {"install_path", "remove_path"} <= attrs, "order-decided-by-paths:" + ",".join(sorted(attrs))[:60],
+                  "the decision compares the entry being published with the entry being removed (install_path vs remove_path)",
+                  f"replace.finalize_data picks the finalisation order by `{A.unparse(t0)[:70]}` instead of comparing the two vdb directories: a replace whose directories differ "
+                  f"although that test says 'same' (a revision bump when only .version is compared) hides the old entry BEFORE the new one is listed — a crash in between lists neither", node=tests[0])
+    ctx.floor("R7", 2)
+
 
 FV = "src/pkgcore/vdb/repo_ops.py"
 FB = "src/pkgcore/binpkg/repo_ops.py"
